@@ -1,5 +1,6 @@
 //! kvh — verification harness driving the real KyroDB engine code in-process.
 mod proto;
+mod configeng;
 mod persist;
 mod qcache;
 mod shim;
@@ -13,6 +14,7 @@ fn main() {
         Some("qcache") => qcache::run(),
         Some("store") => store::run(),
         Some("persist") => persist::run(),
+        Some("config") => configeng::run(),
         _ => {
             eprintln!("usage: kvh <engine>");
             std::process::exit(2);
